@@ -332,6 +332,18 @@ def tie_curve(rng, n):
     return np.array([[float(i), float(v)] for i, v in enumerate(y)]), fam
 
 
+def bytecount_curve(rng, n=None):
+    """integer curve with byte-count sized heights (k * 2^33, k < 2^12) over small integer x: valid int64 input whose squared height differences
+    exceed 2^63 — any intermediate computed in the input's integer dtype (np.dot of differences, squares, products) wraps around"""
+    n = n or rng.randrange(5, 24)
+    x = np.cumsum([rng.choice([1, 1, 2, 3]) for _ in range(n)]).astype(float)
+    ks = sorted((rng.randrange(0, 4096) for _ in range(n)), reverse=True)
+    if rng.random() < 0.3:
+        rng.shuffle(ks)
+    y = np.array(ks, dtype=float) * 2.0 ** 33
+    return np.column_stack([x, y]), 'bytecount'
+
+
 def long_curve(rng, n=None):
     """a LONG curve (> 1024 points): smooth decay + small dyadic noise + a few one-point spikes, so that the chord-distance profile of
     the large ranges is not unimodal.  Anything that treats long ranges differently (sub-sampling, chunking, recursion limits) shows here."""
